@@ -405,7 +405,7 @@ KNOWN_LAZY = "lazy evaluation answers although eager evaluation raises (IndexErr
 
 
 def correspondence(res):
-    n = 220 if res.tier == "quick" else 1500
+    n = 220 if res.tier == "quick" else 880
     corr_terms, corr_info, find_terms, find_info = run_parallel(res, n, 3)
     res.coverage["rule"] = ("constraint texts from a sub-language (selector chains with . .. [i] [i:j], |..|, *.., any/all comprehensions, "
                             "forall/exists, and/or/not, comparisons and expressions incl. raising ones) over 3 schema grammars, parsed by fandango's "
